@@ -7,6 +7,7 @@ mod probe;
 
 mod c01;
 mod c02;
+mod c04;
 mod c07;
 mod c09;
 mod c11;
@@ -30,6 +31,9 @@ fn main() {
     let mut m = Mon::new(&a.prop);
     let offline: Option<fn(&Args, &mut Mon, &mut events::Sink)> = match a.prop.as_str() {
         "C01" => Some(c01::drive),
+        "C04" => Some(c04::drive_spline),
+        "C05" => Some(c04::drive_spline),
+        "C06" => Some(c04::drive_linear),
         "C07" => Some(c07::drive07),
         "C08" => Some(c07::drive08),
         "C09" => Some(c09::drive09),
